@@ -535,7 +535,9 @@ fn c01(ix: &Ix, f: &mut Findings) {
         if x.ended.is_none() {
             continue; // still running at the end of the history: nothing to conclude yet (C07 reports that)
         }
-        let cutoff = ix.first_stop_start(a).unwrap_or(usize::MAX);
+        // "before stop() was requested or the last reference was dropped": whatever was sent once on_stop has begun (only the
+        // hook itself can still do that on an unreferenced actor) is after that point
+        let cutoff = ix.first_stop_start(a).unwrap_or(usize::MAX).min(x.c().unwrap_or(usize::MAX));
         // asks (also timed-out or cancelled ones) that certainly entered the mailbox before any stop() was requested
         for op in &x.msgs {
             let o = &ix.ops[op];
@@ -1246,7 +1248,7 @@ fn c07(ix: &Ix, f: &mut Findings) {
         if ix.exempt(a) || x.ended.is_none() {
             continue;
         }
-        let cutoff = ix.first_stop_start(a).unwrap_or(usize::MAX);
+        let cutoff = ix.first_stop_start(a).unwrap_or(usize::MAX).min(x.c().unwrap_or(usize::MAX));
         for op in &x.msgs {
             let o = &ix.ops[op];
             let accepted = (o.accepted_tell() && o.end.as_ref().unwrap().0 < cutoff) || (o.kind.ask_family() && o.s < cutoff && ix.certainly_accepted(o));
